@@ -349,7 +349,7 @@ def oracle_create(case):
 
 def builtin_text_cases(ctx):
     rng = ctx.rng
-    n = ctx.scale(500, 30_000)
+    n = ctx.scale(800, 12_000)
     # smallest known inputs of each defect class first, so that the replay of a class shows its canonical input
     cases = [("offset", "general_invariant", "+19"), ("date", "iso", "-9999-01-01"),
              ("datetime", "extended_iso", "9999-12-31T24:00:00"), ("date", "iso", "2020-01-01\0")]
@@ -383,7 +383,7 @@ def custom_text_cases(ctx):
     cn = c07.culture_names(ctx, 10)
     ids = c07.cal_ids()
     cases = [("date", "yyyy g", "", "Hebrew Civil", "5780 A.M.")]
-    for _ in range(ctx.scale(2500, 100_000)):
+    for _ in range(ctx.scale(4000, 60_000)):
         ty = rng.choices(types, [5, 6, 6, 2, 3, 1, 1])[0]
         ptext = gen_custom(rng, ty) if rng.random() < 0.9 else rng.choice(c07.STANDARD[ty])
         cname = "" if rng.random() < 0.6 else rng.choice(cn)
